@@ -48,6 +48,28 @@ extern "C" PTRef stub_mkOr(Logic *, vec<PTRef> * args) {
 }
 extern "C" PTRef stub_mkNot(Logic *, PTRef a) { return new_term(!tv(a), ts(a)); }
 
+// ------------------------------------------------------------------ fixed-capacity buffers instead of symbolic-size (re)allocation
+#define CAPMAX 4
+extern "C" void stub_vec_capacity(vec<PTRef> * v, int min_cap) {
+    if (v->cap >= min_cap) return;
+    VASSERT(min_cap <= CAPMAX, "harness: vec<PTRef> never grows beyond the fixed capacity"); VASSUME(min_cap <= CAPMAX);
+    PTRef * nd = static_cast<PTRef *>(malloc(CAPMAX * sizeof(PTRef)));
+    for (int i = 0; i < CAPMAX; i++) if (i < v->sz) nd[i] = v->data[i];
+    free(v->data);
+    v->data = nd; v->cap = CAPMAX;
+}
+extern "C" void stub_realloc_insert(std::vector<Lit> * v, Lit * pos, Lit const * x) {
+    Lit * b = v->_M_impl._M_start, * e = v->_M_impl._M_finish;
+    VASSERT(pos == e, "harness: std::vector<Lit> grows by push_back only");
+    Lit * nd = static_cast<Lit *>(::operator new(CAPMAX * sizeof(Lit)));
+    int n = 0;
+    for (int i = 0; i < CAPMAX; i++) if (b + i != e && n == i) { nd[i] = b[i]; n = i + 1; }
+    VASSERT(b + n == e && n < CAPMAX, "harness: std::vector<Lit> never grows beyond the fixed capacity"); VASSUME(b + n == e && n < CAPMAX);
+    nd[n] = *x;
+    if (b) ::operator delete(b);
+    v->_M_impl._M_start = nd; v->_M_impl._M_finish = nd + n + 1; v->_M_impl._M_end_of_storage = nd + CAPMAX;
+}
+
 // ------------------------------------------------------------------ environment oracles
 static int cfg_alg, cfg_alt;
 extern "C" ItpAlgorithm stub_boolAlg(SMTConfig const *) { return ItpAlgorithm{cfg_alg}; }
